@@ -158,6 +158,36 @@ def rel(body, op, a_rx, b_rx):
     return out
 
 
+def must_be_equal(body, a_rx, b_rx, target_bb):
+    """True iff every path to `target_bb` has established `a == b`, in any of the spellings
+    `a == b` / `!(a != b)`, `match a.cmp(&b) { Equal => .. }`, or the pair `!(a < b)` and
+    `!(a > b)` (two early-exit ifs).  Returns (ok, description)."""
+    for c in rel(body, "Eq", a_rx, b_rx):
+        if body.must_pass_edges(set(c.true_edges), target_bb):
+            return True, "=="
+    eq_edges = []
+    for bb in sorted(body.live_blocks()):
+        t = body.term(bb)
+        if t[0] == "switch" and body._disc_source(bb, t) is not None:
+            r = body.root(t[1])
+            m = re.match(r"disc\(cmp\((.*)\)\)$", r)
+            if not m:
+                continue
+            if not (re.search(a_rx, r) and re.search(b_rx, r)):
+                continue
+            for v, tgt in t[2]:
+                if v == 0:
+                    eq_edges.append((bb, tgt))
+    if eq_edges and body.must_pass_edges(set(eq_edges), target_bb):
+        return True, "cmp==Equal"
+    ge = rel(body, "Ge", a_rx, b_rx)
+    le = rel(body, "Le", a_rx, b_rx)
+    if ge and le and any(body.must_pass_edges(set(c.true_edges), target_bb) for c in ge) and \
+            any(body.must_pass_edges(set(c.true_edges), target_bb) for c in le):
+        return True, ">= and <="
+    return False, "no equality established"
+
+
 def ordered(body, lo_rx, hi_rx, strict=False):
     """Comparisons deciding `lo <= hi` (or `lo < hi` when strict) in any of their spellings
     (`lo <= hi`, `hi >= lo`, `!(lo > hi)`, `!(hi < lo)`), as (cmp, lo_root, hi_root, edges on
